@@ -72,8 +72,9 @@ def main():
             t_res = 'skipped'
             if tests and not no_tests:
                 rc_t, out_t = sh('flock /tmp/cp-pytest.lock /venv/bin/python -m pytest -q -p no:cacheprovider '
-                                 '--timeout=900 %s 2>&1 | tail -5' % ' '.join(tests), cwd=wt, timeout=3000)
-                t_res = out_t.strip().splitlines()[-1] if out_t.strip() else 'rc=%d' % rc_t
+                                 '--timeout=900 %s 2>&1 | tail -15' % ' '.join(tests), cwd=wt, timeout=3000)
+                summ = [l for l in out_t.splitlines() if re.search(r'\d+ (passed|failed|error)', l)]
+                t_res = (summ[-1].strip() if summ else 'rc=%d' % rc_t) + ' [' + ' '.join(tests) + ']'
             rc_k, out_k = sh('./check %s --tier %s' % (prop, tier), cwd=VERIF,
                              env={'CHERRYPY_REPO': wt, 'VERIF_SEED': os.environ.get('VERIF_SEED', '0')}, timeout=3000)
             viol = [l for l in out_k.splitlines() if l.startswith('VIOLATION')]
